@@ -643,8 +643,8 @@ M('hier-sorted-lls', ['C02'], LP,
   'R02.9')
 # --- rules of the continuation session ---------------------------------------
 M('stale-config-read', ['C02'], LP,
-  "        n_parameters = population_model.n_dim()\n        for log_likelihood in log_likelihoods:",
-  "        n_parameters = population_model.n_dim()\n        n_top = population_model.n_parameters()\n        for log_likelihood in log_likelihoods:",
+  '        self._n_dim = self._population_model.n_dim()\n\n        # Get number of parameters as well as pooled or heterogen. dimensions\n        self._population_model.set_n_ids(self._n_ids)\n        self._n_parameters = np.sum(\n            self._population_model.n_hierarchical_parameters(self._n_ids))\n        self._n_bottom = \\\n            self._n_parameters - self._population_model.n_parameters()',
+  '        self._n_dim = self._population_model.n_dim()\n        n_top = self._population_model.n_parameters()\n\n        # Get number of parameters as well as pooled or heterogen. dimensions\n        self._population_model.set_n_ids(self._n_ids)\n        self._n_parameters = np.sum(\n            self._population_model.n_hierarchical_parameters(self._n_ids))\n        self._n_bottom = self._n_parameters - n_top',
   'R00')
 M('refresh-own-view', ['C08'], MM,
   "            self._parameter_names = self._mechanistic_model.parameters()",
@@ -690,7 +690,7 @@ M('drop-duplicates', ['C14'], PB,
   "            [self._time_key, self._obs_key, self._value_key]]\n        for output in self._mechanistic_model.outputs():",
   "            [self._time_key, self._obs_key, self._value_key]\n        ].drop_duplicates()\n        for output in self._mechanistic_model.outputs():",
   'R14.1')
-M('field-alias-sort', ['C19', 'C13'], LP,
+M('field-alias-sort', ['C19'], LP,
   "        self._times = np.sort(times)\n\n        # Check mechanistic model",
   "        self._times = np.asarray(times)\n        self._times.sort()\n\n        # Check mechanistic model",
   'R19.2')
